@@ -43,8 +43,8 @@ CHECKS = {
             "DESIGN.md 4/C11"),
     "C12": ("exploration",
             "systematic enumeration of thread interleavings at hook points (controlled scheduler) over proptest-generated spec sets",
-            "2-3 threads each issue one specification change; a scheduler parks them at the three hook points of every update and executes all 20 orderings (2 threads) or all 1680 / a sample (3 threads); final filtering must equal exactly one submitted spec and log::max_level must admit it. Exhaustive at hook granularity for each generated spec set, search over spec sets.",
-            "interleavings below the granularity of the three schedule points are not controlled; blocked threads (lock) are detected by a 10 ms timeout which only changes which interleaving is explored",
+            "2-3 threads each issue one specification change (in ~6% of the cases flexi_logger's own specfile watcher thread is one of the participants); a scheduler parks them at the three hook points of every update - plus, with an additional writer, at a harness-owned point inside the writer's max_log_level() - and executes all 20 / 70 orderings (2 threads) or all 1680 / a sample (3 threads, watcher cases); final filtering must equal exactly one submitted spec and log::max_level must admit it. Exhaustive at hook granularity for each generated spec set without watcher, search over spec sets.",
+            "interleavings below the granularity of the schedule points are not controlled; blocked threads (lock) are detected by a 10 ms timeout which only changes which interleaving is explored; watcher runs depend on the inotify event arriving within 6 s (otherwise the run goes on without the watcher)",
             "DESIGN.md 4/C12"),
     "C16": ("exploration",
             "model-based histories with a listing oracle from the reference name grammar (proptest), path round trip for FileSpec::try_from executed with a per-case cwd",
@@ -148,7 +148,7 @@ def main():
         "setup_cmd": "cd /verif/harness && CARGO_NET_OFFLINE=true cargo build --release --offline",
         "hooks": {
             "guard": "cargo feature verif_hooks (flexi_logger)",
-            "enable": "the harness crate /verif/harness depends on flexi_logger by path /repo with features [async, compress, json, kv, buffer_writer, syslog_writer, specfile_without_notification, verif_hooks]; check.sh runs `cargo build --release --offline` before every check, so the current working tree of /repo is rebuilt",
+            "enable": "the harness crate /verif/harness depends on flexi_logger by path /repo with features [async, compress, json, kv, buffer_writer, syslog_writer, specfile_without_notification, specfile, verif_hooks]; check.sh runs `cargo build --release --offline` before every check, so the current working tree of /repo is rebuilt",
             "baseline_off_cmd": "cd /repo && cargo nextest run --workspace --no-fail-fast --tool-config-file pb:/w/lib/nextest.toml --profile pb --test-threads 8 --offline",
             "source_commits": hook_commits(),
             "add_only": True,
